@@ -43,12 +43,17 @@ static const int LONGLEN[] = {480, 495, 499, 500, 501, 505, 520, 1000, 1050, 110
 #define NLONGCFG 7
 static uint64_t secE(int tier) { (void)tier; return (uint64_t)10 * NLONGSCRIPT * NLONGCFG; }
 
+/* G: long terminal overhangs: a shared core with overhangs of 5..60 residues (letters that do not occur in the core) at either end of either sequence */
+static const int OVL[5] = {5, 10, 20, 40, 60};
+#define NOVER (3 * 4 * 5 * 5)
+static uint64_t secG(int tier) { (void)tier; return (uint64_t)NOVER * (NDC + NPC); }
+
 uint64_t vh_total(int tier)
 {
 #if C07_THREADS > 1
         return secE(tier);
 #else
-        return secA(tier) + secB(tier) + secC(tier) + secD(tier) + secE(tier);
+        return secA(tier) + secB(tier) + secC(tier) + secD(tier) + secE(tier) + secG(tier);
 #endif
 }
 
@@ -161,6 +166,57 @@ static void decode(uint64_t id, int tier, struct pcase* p)
                 return;
         }
         id -= secD(tier);
+        if(id >= secE(tier)){
+                uint64_t x = id - secE(tier);
+                int ci = (int)(x % (NDC + NPC)), fl, layout, la, lb, i, o;
+                char a[200], b[200], core[64];
+                const char* f1;
+                const char* f2;
+                x /= (NDC + NPC);
+                fl = (int)(x % 3); x /= 3;
+                layout = (int)(x % 4); x /= 4;
+                la = OVL[x % 5];
+                lb = OVL[x / 5];
+                p->protein = ci >= NDC;
+                p->c = p->protein ? PCFG[ci - NDC] : DCFG[ci];
+                f1 = p->protein ? PFLANK[fl][0] : "ACGACCGAGCAGGACACGCA";
+                f2 = p->protein ? PFLANK[fl][1] : (fl == 1 ? "GGACAGCAAC" : (fl == 2 ? "CAGGCAACGA" : "AGCAGGCCAG"));
+                snprintf(core, sizeof core, "%s%s", f1, f2);
+                /* overhang letters: T for nucleotides (the cores above contain no T), P/Q/H/N/Y/F/I/M/R/C for proteins (not in the flanks) */
+                /* layout 0: a = core + tail, b = head + core; 1: a = head + core, b = core + tail; 2: a = core + tail, b = core; 3: a = head + core + tail, b = core */
+                o = 0;
+                if(layout == 1 || layout == 3){
+                        for(i = 0; i < la; i++){
+                                a[o++] = p->protein ? "PQHNY"[i % 5] : 'T';
+                        }
+                }
+                memcpy(a + o, core, strlen(core));
+                o += (int)strlen(core);
+                if(layout == 0 || layout == 2 || layout == 3){
+                        for(i = 0; i < (layout == 3 ? lb : la); i++){
+                                a[o++] = p->protein ? "FIMRC"[i % 5] : 'T';
+                        }
+                }
+                a[o] = 0;
+                o = 0;
+                if(layout == 0){
+                        for(i = 0; i < lb; i++){
+                                b[o++] = p->protein ? "PQHNY"[i % 5] : 'T';
+                        }
+                }
+                memcpy(b + o, core, strlen(core));
+                o += (int)strlen(core);
+                if(layout == 1){
+                        for(i = 0; i < lb; i++){
+                                b[o++] = p->protein ? "FIMRC"[i % 5] : 'T';
+                        }
+                }
+                b[o] = 0;
+                p->a = strdup(a);
+                p->b = strdup(b);
+                p->sec = 5;
+                return;
+        }
         {
                 /* long: base of length LONGLEN; b = base with a script of edits */
                 int ci = (int)(id % NLONGCFG);
@@ -358,6 +414,9 @@ int vh_case(uint64_t id, int tier)
                 }
                 if(p.sec == 4){
                         vh_count("long_certified_cases");
+                }
+                if(p.sec == 5){
+                        vh_count("overhang_certified_cases");
                 }
         }else{
                 vh_count(cert.representable ? "uncertified_margin_too_small" : "uncertified_adjacent_opposite_gaps");
